@@ -148,10 +148,15 @@ def coq_makefile():
     open(stamp, "w").write(want)
 
 
-def coq_make(targets, timeout=1500):
-    """Full .vo build of the given targets (relative to coq/). Returns (ok, output)."""
+def coq_make(targets, timeout=1500, fresh=()):
+    """Full .vo build of the given targets (relative to coq/). Returns (ok, output). `fresh`: compiled files removed first,
+    inside the build lock, so that they are rebuilt (and their Print Assumptions printed) by THIS call even when another
+    check of the same property runs at the same time."""
     with BuildLock():
         coq_makefile()
+        for f in fresh:
+            if os.path.exists(f):
+                os.remove(f)
         try:
             p = subprocess.run(["make", f"-j{NCPU}"] + targets, cwd=COQ, capture_output=True,
                                text=True, timeout=timeout)
@@ -251,13 +256,11 @@ def build_property(ctx, regenerate=None, extra_targets=()):
     src = open(os.path.join(COQ, vfile)).read()
     theorems = re.findall(r"^\s*Theorem\s+(\w+)", strip_comments(src), re.M)
     vo = os.path.join(COQ, vfile + "o")
-    if os.path.exists(vo):
-        os.remove(vo)
     targets = [vfile + "o"]
     if os.path.exists(os.path.join(COQ, f"Check/{prop}.v")):
         targets.append(f"Check/{prop}.vo")
     targets += list(extra_targets)
-    ok, out = coq_make(targets)
+    ok, out = coq_make(targets, fresh=[vo])
     ctx.checker_cmd = f"make -C coq -j{NCPU} {vfile}o   (coq_makefile -f _CoqProject; coqc 8.16.1)"
     files = cone(vfile)
     ctx.cone = files
